@@ -296,6 +296,36 @@ func reflMapExp(m interface{}) func(stick.Value, []stick.Value) c16Exp {
 	}
 }
 
+// a struct that embeds a pointer: the promoted field exists only while the pointer is set
+type c16PE struct{ P int }
+type c16S2 struct {
+	*c16PE
+	Own string
+}
+
+func c16EmbPtrConts() []c16Cont {
+	exp := func(set bool) func(stick.Value, []stick.Value) c16Exp {
+		return func(key stick.Value, args []stick.Value) c16Exp {
+			name, isStr := key.(string)
+			switch {
+			case isStr && name == "Own":
+				return noMethodArgs(args, c16Exp{accept: []stick.Value{"o"}})
+			case isStr && name == "P" && set:
+				return noMethodArgs(args, c16Exp{accept: []stick.Value{7}})
+			case isStr && name == "c16PE":
+				return c16Exp{any: true}
+			}
+			return c16Exp{mustErr: true}
+		}
+	}
+	return []c16Cont{
+		{"struct embedding a nil pointer", c16S2{Own: "o"}, exp(false)},
+		{"*struct embedding a nil pointer", &c16S2{Own: "o"}, exp(false)},
+		{"struct embedding a set pointer", c16S2{&c16PE{7}, "o"}, exp(true)},
+		{"*struct embedding a set pointer", &c16S2{&c16PE{7}, "o"}, exp(true)},
+	}
+}
+
 func c16NamedKeyMaps() []c16Cont {
 	var res []c16Cont
 	add := func(name string, m interface{}) {
@@ -448,14 +478,14 @@ func c16Containers() []c16Cont {
 		{"bool", true, allErr},
 		{"float64", 2.5, allErr},
 	}
-	return append(base, c16NamedKeyMaps()...)
+	return append(append(base, c16NamedKeyMaps()...), c16EmbPtrConts()...)
 }
 
 func c16Keys() []stick.Value {
 	return []stick.Value{"k", "missing", "Field", "unexported", "Method", "PtrMethod", "Add", "Greet", "IntArg", "Var", "Join", "Two", "None", "Emb",
 		"", 0, 1, 2, -1, 3, 1.0, 1.5, "1", true, false, nil, int8(1), uint(2), "0", "true", []int{1},
 		c16KStr("k"), c16KI64(1), time.Duration(1), c16KBool(true), c16KF64(1.5), int64(1), 300, -200.0, uint64(1) << 63,
-		"PtrNil", "PtrSet", "SliceNil", "MapNil", "Iface"}
+		"PtrNil", "PtrSet", "SliceNil", "MapNil", "Iface", "P", "Own"}
 }
 
 func c16ArgLists() [][]stick.Value {
@@ -745,6 +775,10 @@ type c16Step struct {
 // failTogether: the failing callback also asks to stop (as the executor's loop body does)
 var failTogether bool
 
+// growDuring, if set, is called by the callback at every step (it inserts new entries into the map being iterated:
+// the traversal visits what the map held when it started, as the announced length says)
+var growDuring func(step int)
+
 func tryIterate(v stick.Value, brkAt int, failAt int) (steps []c16Step, count int, err error, pan string) {
 	defer func() {
 		if p := recover(); p != nil {
@@ -753,6 +787,9 @@ func tryIterate(v stick.Value, brkAt int, failAt int) (steps []c16Step, count in
 	}()
 	count, err = stick.Iterate(v, func(k, val stick.Value, l stick.Loop) (bool, error) {
 		steps = append(steps, c16Step{k, val, l})
+		if growDuring != nil {
+			growDuring(len(steps))
+		}
 		if len(steps)-1 == failAt {
 			return failTogether, errors.New("stop")
 		}
@@ -779,6 +816,32 @@ func c16Iter(si, n, brk, mode int) core.Result {
 		}
 	}
 	failTogether = mode == 2
+	growDuring = nil
+	if mode == 3 {
+		rv := reflect.Indirect(reflect.ValueOf(v))
+		if !rv.IsValid() || rv.Kind() != reflect.Map || rv.IsNil() || !isMap {
+			return core.Skipped("not-a-growable-map")
+		}
+		kt, et := rv.Type().Key(), rv.Type().Elem()
+		growDuring = func(step int) {
+			for j := 0; j < 3; j++ {
+				var nk reflect.Value
+				switch kt.Kind() {
+				case reflect.String:
+					nk = reflect.ValueOf(fmt.Sprintf("zz%d_%d", step, j)).Convert(kt)
+				case reflect.Int:
+					nk = reflect.ValueOf(100000 + step*10 + j).Convert(kt)
+				case reflect.Interface:
+					nk = reflect.ValueOf(fmt.Sprintf("zz%d_%d", step, j))
+				default:
+					return
+				}
+				rv.SetMapIndex(nk, reflect.Zero(et))
+			}
+		}
+		defer func() { growDuring = nil }()
+		brkAt, failAt = -1, -1
+	}
 	steps, count, err, pan := tryIterate(v, brkAt, failAt)
 	if pan != "" {
 		return core.Violation("panic", "Iterate over "+desc+" panicked: "+pan)
@@ -811,7 +874,7 @@ func c16Iter(si, n, brk, mode int) core.Result {
 	}
 	wantArr := !isMap && v != nil
 	wantMap := isMap
-	if preds[0] != true || preds[1] != wantArr || preds[2] != wantMap || preds[3] != fmt.Sprint(n, false) {
+	if mode != 3 && (preds[0] != true || preds[1] != wantArr || preds[2] != wantMap || preds[3] != fmt.Sprint(n, false)) {
 		return core.Violation("predicates", fmt.Sprintf("%s: IsIterable/IsArray/IsMap/Len = %v, want [true %v %v %d false]", desc, preds, wantArr, wantMap, n))
 	}
 	wantSteps := n
@@ -928,8 +991,67 @@ func c16LenTpl(si, n int) core.Result {
 	return core.Okay(true, out)
 }
 
+// two different struct types that print the same ("checks.row"): function-local types of one name
+func c16Row1() stick.Value {
+	type row struct {
+		ID   int
+		Name string
+	}
+	return row{1, "n1"}
+}
+
+func c16Row2() stick.Value {
+	type row struct {
+		Name  string
+		Extra int
+		ID    int
+	}
+	return row{"n2", 9, 2}
+}
+
+func c16Row3() stick.Value {
+	type row struct{ Extra string }
+	return &row{"e3"}
+}
+
+// c16SameName: attribute lookups on distinct types of the same printed name, in every order, directly and through
+// a template: each value answers for its own layout.
+func c16SameName(perm int) core.Result {
+	vals := []stick.Value{c16Row1(), c16Row2(), c16Row3()}
+	want := []map[string]string{{"ID": "1", "Name": "n1", "Extra": "ERR"}, {"ID": "2", "Name": "n2", "Extra": "9"}, {"ID": "ERR", "Name": "ERR", "Extra": "e3"}}
+	orders := [][]int{{0, 1, 2}, {0, 2, 1}, {1, 0, 2}, {1, 2, 0}, {2, 0, 1}, {2, 1, 0}}
+	attrs := [][]string{{"ID", "Name", "Extra"}, {"Extra", "Name", "ID"}, {"Name", "Extra", "ID"}}
+	for round := 0; round < 2; round++ {
+		for _, a := range attrs[perm%3] {
+			for _, vi := range orders[perm/3%6] {
+				got, err, pan := tryGetAttr(vals[vi], a, nil)
+				if pan != "" {
+					return core.Violation("panic", fmt.Sprintf("GetAttr(%T #%d, %q) panicked: %s", vals[vi], vi+1, a, pan))
+				}
+				g := "ERR"
+				if err == nil {
+					g = stick.CoerceString(got)
+				}
+				if g != want[vi][a] {
+					return core.Violation("wrong-element", fmt.Sprintf("GetAttr(%#v, %q) = %q (err %v), want %q; other types of the same printed name %T were looked up before", vals[vi], a, g, err, want[vi][a], vals[vi]))
+				}
+			}
+		}
+	}
+	out, err, pan := tryExec(stick.New(nil), "{{ a.Name }}/{{ b.Name }}/{{ b.ID }}/{{ a.ID }}/{{ c.Extra }}/{{ b.Extra }}", map[string]stick.Value{"a": vals[0], "b": vals[1], "c": vals[2]})
+	if pan != "" || err != nil || out != "n1/n2/2/1/e3/9" {
+		return core.Violation("wrong-output", fmt.Sprintf("template over same-named types renders %q (%v %s), want n1/n2/2/1/e3/9", out, err, pan))
+	}
+	return core.Okay(true, out)
+}
+
 func c16Levels(tier string) []core.Level {
 	return []core.Level{
+		{Name: "three struct types of the same printed name and different layouts, looked up in every order (a cache keyed by the type's name would confuse them)", Gen: func(emit func(core.Case)) {
+			for p := 0; p < 18; p++ {
+				emit(core.Case{Fam: "samename", N: []int{p}})
+			}
+		}},
 		{Name: "GetAttr: every container x every key x every argument list of length 0..2 (+ one of length 3)", Gen: func(emit func(core.Case)) {
 			nc, nk, na := len(c16Containers()), len(c16Keys()), len(c16ArgLists())
 			for a := 0; a < na; a++ { // simplest first: no arguments
@@ -948,6 +1070,9 @@ func c16Levels(tier string) []core.Level {
 						emit(core.Case{Fam: "iter", N: []int{si, n, b, 0}})
 						emit(core.Case{Fam: "iter", N: []int{si, n, b, 1}})
 						emit(core.Case{Fam: "iter", N: []int{si, n, b, 2}})
+					}
+					if n > 0 {
+						emit(core.Case{Fam: "iter", N: []int{si, n, -1, 3}}) // the callback grows the map while it is being traversed
 					}
 				}
 			}
@@ -980,6 +1105,8 @@ func c16Run(c core.Case) core.Result {
 		return c16Tpl(c.N[0], c.N[1])
 	case "len":
 		return c16LenTpl(c.N[0], c.N[1])
+	case "samename":
+		return c16SameName(c.N[0])
 	}
 	return core.Skipped("unknown-family")
 }
